@@ -345,6 +345,40 @@ pub fn g1(rng: &mut Rng, fmt: Fmt) -> Case {
     }
 }
 
+/// G1X: "pseudo-midpoints" outside the range of the format. The moderate stage works on the top bits of w x 10^q and only
+/// looks at the range at the very end, so a value far above MAX (or far below the smallest subnormal) whose leading bits
+/// look like a halfway pattern - (2m+1) x 2^(k-1) with a p-bit m and k beyond the exponent range - is declined like a
+/// real near-tie and reaches the big-integer path with its float clamped to infinity / zero. Same variants as G1.
+pub fn g1x(rng: &mut Rng, fmt: Fmt) -> Case {
+    let fm = fmt.frac_mask();
+    loop {
+        let frac = match rng.below(6) {
+            0 => 0,
+            1 => fm,
+            2 => 1u64 << rng.below(fmt.mant_bits as u64),
+            _ => rng.next() & fm,
+        };
+        let m = fmt.hidden() | frac;
+        let d = match rng.below(6) {
+            0 => rng.below(4) as i64,
+            1 => rng.range(60, 70),
+            2 => rng.range(120, 135),
+            _ => rng.range(0, 420),
+        };
+        let (kmax, _) = (fmt.decode(fmt.max_finite_bits()).1, 0);
+        let above = rng.chance(3, 5);
+        let k = if above { kmax + 1 + d } else { (fmt.min_k() - 1 - d.min(if fmt.mant_bits == 52 { 600 } else { 420 })).max(-1700) };
+        let n = if rng.chance(5, 6) { 2 * m as u128 + 1 } else { 2 * m as u128 };
+        let b = Dec::from_scaled(&BigU::from_u128(n), k - 1);
+        let which = *rng.pick(&[0u64, 1, 2, 2, 2, 3, 3, 3, 4, 5, 6]);
+        let (sig, e10, _tag, _rel) = variant(rng, fmt, &b, which);
+        if let Some(mut c) = place_random(rng, &sig, e10, "OUT_OF_RANGE_MIDPOINT") {
+            c.tag = if above { "PSEUDO_MIDPOINT_ABOVE_RANGE" } else { "PSEUDO_MIDPOINT_BELOW_RANGE" };
+            return c;
+        }
+    }
+}
+
 /// G1 restricted to a given float and variant (used by enumerations).
 pub fn g1_for(rng: &mut Rng, fmt: Fmt, bits: u64, mid: bool, which: u64) -> (Case, Rel) {
     loop {
